@@ -17,6 +17,7 @@ breaks the proofs below.
 -/
 import EdzedModel.TimeUnits
 import EdzedProofs.TimeUnits
+import EdzedProofs.TimeUnitsTie
 import EdzedModel.Gen.Constants
 
 namespace Edzed.TimeUnits
@@ -480,3 +481,64 @@ theorem period_type_error (l : List Atom) :
       timePeriod (.lst l) = .error .type := ⟨rfl, rfl, rfl⟩
 
 end Edzed.TimeUnits
+
+/-! ## Tie by translation
+
+`Gen.TrTu.*` (lean/EdzedModel/Gen/TranslatedTimeUnits.lean) is regenerated on every run from the CURRENT
+Python source of edzed/utils/timeunits.py by tools/py2lean_timeunits.py: statement order, conditions,
+early exits, the loop over the match groups, the order of the patterns and of the scale factors, class
+boundaries, format decisions and every constant come from the AST.  Declared (EdzedModel/TimeUnitsPy.lean)
+is only the meaning of built-ins, `str`/`re` methods and format specifications; the regular-expression
+match itself is the model's matcher.  The theorems say that the generated definitions ARE the model's, for
+all arguments – a semantic edit of the Python code breaks them (or the definition is omitted). -/
+
+namespace Edzed.TrTie
+open Edzed.TimeUnits
+
+/-- `time_period`: None → None, int (incl. bool) → float, float → `max(0.0, x)`, str → `convert`,
+    anything else TypeError -/
+theorem translated_timeunits_time_period_is_model (v : Val) :
+    Gen.TrTu.timePeriod v = timePeriod v := tr_timePeriod v
+
+/-- the body of the loop of `_convert` over the match groups IS the model's `addGroup`: skip an absent
+    group; a decimal comma or point only while no smaller unit was present; comma → point before `float`;
+    a zero value counts as present but adds nothing; years/months ≠ 0 refused; `value * factor` added -/
+theorem translated_timeunits_convert_step_is_model (sm : Bool) (res : Rat) (g : Option Num) (sc : Option Nat) :
+    Gen.TrTu.convertStep (res, sm) (g, sc) =
+      match addGroup ⟨res, sm⟩ g sc with
+      | .ok a => .ok (a.result, a.smallest)
+      | .error e => .error e := tr_convertStep sm res g sc
+
+/-- `_convert` after the regular-expression match: the traditional pattern is tried first, then the ISO
+    one, no match is a ValueError; the groups are walked from the smallest unit with the factors
+    `1, SEC_PER_MIN, SEC_PER_HOUR, SEC_PER_DAY, None, None`; nothing present is a ValueError -/
+theorem translated_timeunits_convert_is_model (cs : List Char) :
+    Gen.TrTu.convert cs = convert cs := tr_convert cs
+
+/-- the source text of the two regular expressions (layout of the VERBOSE form removed) and of `_NUM`, and
+    their flags: what the hand-written matchers `matchTrad` / `matchIso` model.  Any edit of a pattern
+    breaks this obligation. -/
+theorem translated_timeunits_patterns_pinned :
+    Gen.durationNum = "(\\d+(?:[.,]\\d+)?)" ∧
+    Gen.durationRegexes =
+      [("_RE_DURATION",
+        "\\s*(?:(\\d+(?:[.,]\\d+)?)\\s*d)?\\s*(?:(\\d+(?:[.,]\\d+)?)\\s*h)?\\s*(?:(\\d+(?:[.,]\\d+)?)\\s*m)?\\s*(?:(\\d+(?:[.,]\\d+)?)\\s*s?)?\\s*",
+        ["ASCII", "IGNORECASE"]),
+       ("_RE_ISO_DURATION",
+        "\\s*P(?:(\\d+(?:[.,]\\d+)?)Y)?(?:(\\d+(?:[.,]\\d+)?)M)?(?:(\\d+(?:[.,]\\d+)?)D)?(?:T(?:(\\d+(?:[.,]\\d+)?)H)?(?:(\\d+(?:[.,]\\d+)?)M)?(?:(\\d+(?:[.,]\\d+)?)S)?)?\\s*",
+        ["ASCII"])] := ⟨rfl, rfl⟩
+
+/-- `timestr`: negative refused; a float is rounded to `prec` places BEFORE the three `divmod`s; days only
+    when non-zero, hours when days or hours are non-zero, minutes and seconds always; seconds with `prec`
+    places for a float, plain for an int; joined with `sep` -/
+theorem translated_timeunits_timestr_is_model (x : Secs) (sep : List Char) (prec : Nat) :
+    Gen.TrTu.timestr x sep prec = timestr x sep prec := tr_timestr x sep prec
+
+/-- `timestr_approx`: the magnitude classes (1, 10, 60 s, 10 h, 10 d) with their rounding steps
+    (3, 2, 1, 0 places; minutes; hours), each test made on the value rounded so far, the omission of
+    seconds / minutes, and the format of the parts -/
+theorem translated_timeunits_timestr_approx_is_model (x : Secs) (sep : List Char) :
+    Gen.TrTu.timestrApprox x sep = timestrApprox x sep := tr_timestrApprox x sep
+
+end Edzed.TrTie
+
